@@ -1,5 +1,7 @@
 from __future__ import annotations
 
+import re
+
 from typing import TYPE_CHECKING
 
 from cnl2asp.ASP_elements.asp_operation import ASPOperation
@@ -29,7 +31,9 @@ class RangeASPValue(ASPValue):
     def set_value(self, value: ASPValue):
         if Utility.ASP_NULL_VALUE not in self:
             return value
-        value = self.replace(Utility.ASP_NULL_VALUE, value).replace('..', ' ')
+        # only the placeholders: an underscore inside a name (N_N) is not one
+        value = re.sub(rf'(?<![A-Za-z0-9_]){re.escape(Utility.ASP_NULL_VALUE)}(?![A-Za-z0-9_])',
+                       lambda _: str(value), self).replace('..', ' ')
         return RangeASPValue(value)
 
 
